@@ -720,6 +720,10 @@ impl ActionContext for &Server {
         self.database.graph().collect(key)
     }
 
+    fn has_key(&self, key: &Key) -> bool {
+        self.database.graph().maybe_key(key).is_some()
+    }
+
     fn squash(&self, key: &Key, depth: u8) -> Tree {
         self.database.graph().squash(key, depth)
     }
